@@ -122,6 +122,61 @@ class LoopModel:
     return None
 
 
+def _mk_connected_callee():
+  """a top-level callee port CONNECTED to a child's method; an internal block calls another method of that child which the child
+  orders after the first one: M(q.enq) < M(q.deq) has to order top.enq before the block"""
+  from pymtl3 import Component, CalleePort, update_once, method_port, M, U
+
+  class OLQ(Component):
+    def construct(s):
+      s.val = None
+      s.add_constraints(M(s.enq) < M(s.deq))
+
+    @method_port
+    def enq(s, v):
+      s.val = v
+
+    @method_port
+    def deq(s):
+      v = s.val; s.val = None
+      return v
+
+  class OLConn(Component):
+    def construct(s):
+      s.q = OLQ()
+      s.enq = CalleePort()
+      s.enq //= s.q.enq
+      s.out = None
+
+      @update_once
+      def up_drain():
+        s.out = s.q.deq()
+
+      s.add_constraints(U(up_drain) < M(s.pull))
+
+    @method_port
+    def pull(s):
+      return s.out
+
+    def line_trace(s): return ""
+  return OLConn()
+
+
+class ConnModel:
+  required = [("enq", "up_drain"), ("up_drain", "pull")]
+  blocks = {"up_drain"}
+
+  def __init__(self):
+    self.val = None; self.out = None
+
+  def event(self, name, args, ret):
+    if name == "enq": self.val = args[0]
+    elif name == "up_drain": self.out, self.val = self.val, None
+    elif name == "pull":
+      if ret != self.out: return f"pull returned {ret}, the executed order gives {self.out}"
+    return None
+
+
 def _mk_queue(kind, cap):
   import pymtl3.stdlib.queues.cl_queues as clq
   return getattr(clq, kind)(cap)
@@ -187,7 +242,8 @@ class QueueModel:
 
 def designs():
   out = [("OLTop", _mk_top_method_port, TopModel, [("call", "push", 7), ("call", "push", 9), ("call", "pull")]),
-         ("OLLoop", _mk_loop, LoopModel, [("call", "push", 3), ("call", "push", 9), ("call", "pull")])]
+         ("OLLoop", _mk_loop, LoopModel, [("call", "push", 3), ("call", "push", 9), ("call", "pull")]),
+         ("OLConn", _mk_connected_callee, ConnModel, [("call", "enq", 5), ("call", "enq", 6), ("call", "pull")])]
   for kind in ("PipeQueueCL", "BypassQueueCL", "NormalQueueCL"):
     for cap in (1, 2):
       out.append((f"{kind}({cap})", (lambda k=kind, c=cap: _mk_queue(k, c)), (lambda k=kind, c=cap: QueueModel(k, c)),
@@ -197,7 +253,7 @@ def designs():
 
 # ------------------------------------------------------------------ one execution
 
-def run_sequence(factory, mk_model, seq):
+def run_sequence(factory, mk_model, seq, tiebreak=0):
   """-> (events [(cycle, name, args, ret)], failures [(sig, expected, observed, msg)])"""
   from pymtl3.passes.sim.GenDAGPass import GenDAGPass
   from pymtl3.passes.autotick.OpenLoopCLPass import OpenLoopCLPass
@@ -205,8 +261,11 @@ def run_sequence(factory, mk_model, seq):
   top = factory()
   top.elaborate()
   top.apply(GenDAGPass())
+  from vt import seams
   try:
-    top.apply(OpenLoopCLPass(print_line_trace=False))
+    # the pass shuffles the vertex list before its depth-first search: the tie-break is chosen here (element tiebreak % n first ... )
+    with seams.shuffle_seam(lambda n: tiebreak % n):
+      top.apply(OpenLoopCLPass(print_line_trace=False))
   except Exception as ex:
     return [], [("pass-raised", "the design is scheduled", f"{type(ex).__name__}: {str(ex)[:120]}", "")]
   model = mk_model()
@@ -295,6 +354,9 @@ def closure(req):
   return _closure_cache[key]
 
 
+TIEBREAKS = tuple(range(8))      # every element of the (at most 8) vertices of these designs moved to the end of the shuffled list once
+
+
 def explore(tier, acc, only=None):
   L = 4 if tier == "quick" else 5
   for name, factory, mk_model, letters in designs():
@@ -302,12 +364,15 @@ def explore(tier, acc, only=None):
     n = 0
     for k in range(1, L + 1):
       for seq in itertools.product(letters, repeat=k):
-        events, fails = run_sequence(factory, mk_model, seq)
-        n += 1
-        acc.count("openloop_executions"); acc.count("executions"); acc.count("order_checks", len(events))
-        acc.add("openloop_outcomes", (name, tuple((c, nm) for c, nm, a, r in events)))
-        for f in fails:
-          acc.violation(f"openloop:{name.split('(')[0]}:{f[0]}", dict(mode="openloop", design=name, seq=[list(x) for x in seq]), f[1], f[2], f[3])
+        fails = []
+        for tb in (TIEBREAKS if k <= 3 else (0,)):
+          events, fails = run_sequence(factory, mk_model, seq, tb)
+          n += 1
+          acc.count("openloop_executions"); acc.count("executions"); acc.count("order_checks", len(events))
+          acc.add("openloop_outcomes", (name, tuple((c, nm) for c, nm, a, r in events)))
+          for f in fails:
+            acc.violation(f"openloop:{name.split('(')[0]}:{f[0]}", dict(mode="openloop", design=name, seq=[list(x) for x in seq], tiebreak=tb), f[1], f[2], f[3])
+          if fails: break
         if fails: break
     acc.count("openloop_designs")
     if n == 0: raise MachineryError("no open-loop sequence executed")
@@ -316,6 +381,6 @@ def explore(tier, acc, only=None):
 def replay(case):
   for name, factory, mk_model, letters in designs():
     if name == case["design"]:
-      events, fails = run_sequence(factory, mk_model, [tuple(x) for x in case["seq"]])
+      events, fails = run_sequence(factory, mk_model, [tuple(x) for x in case["seq"]], case.get("tiebreak", 0))
       return [(f"openloop:{name.split('(')[0]}:{f[0]}", f[1], f[2], f[3]) for f in fails]
   return []
